@@ -50,7 +50,7 @@ def m_shr(a, k):
 # ----------------------------------------------------------------------------- plan
 def plan(tier, seed):
     specs = []
-    pair_max = 6 if tier == "quick" else 9
+    pair_max = 6 if tier == "quick" else 8
     for n in range(0, pair_max + 1):
         specs.append({"name": f"exh-len{n}", "kind": "exhaustive", "len_a": n, "pair_max": pair_max,
                       "unary_max": 8})
@@ -237,8 +237,9 @@ def _check_binary(Bitset, mon, va, na, vb, nb, acc):
     mon.same("and", a & b, m_binop("and", ma, mb), case)
     mon.same("or", a | b, m_binop("or", ma, mb), case)
     mon.same("xor", a ^ b, m_binop("xor", ma, mb), case)
-    check_derived(mon, a & b, m_binop("and", ma, mb), case, "and")
-    check_derived(mon, a ^ b, m_binop("xor", ma, mb), case, "xor")
+    if max(na, nb) <= 5 or (va * 31 + vb) % 4 == 0:  # all pairs for short lengths, every fourth pair beyond
+        check_derived(mon, a & b, m_binop("and", ma, mb), case, "and")
+        check_derived(mon, a ^ b, m_binop("xor", ma, mb), case, "xor")
     if (va + vb) % 3 == 0:
         check_derived(mon, a | b, m_binop("or", ma, mb), case, "or")
         check_derived(mon, cat, ma + mb, case, "concat")
